@@ -126,6 +126,48 @@ def _cds_case(repo, it, S, spec):
             out.append(("chunk coding sequence " + cat, f"{desc}: extract_sequence on the chunk = {sv!r}; codons inside the chunk spell {wseq!r}", q("extract_sequence").qual))
     elif wseq or inside_any or v in ("AttributeError", "IndexError", "KeyError", "TypeError"):
         out.append(("chunk coding sequence " + cat + " raises", f"{desc}: extract_sequence on the chunk raises {v}; expected {wseq!r}", q("extract_sequence").qual))
+    # codon windows on the chunk view: the whole-chromosome codons fully inside both the chunk and the window (the window is
+    # given in chromosome coordinates; frame is kept at the window's 5' edge as well)
+    if inside_any and codons:
+        lo, hi = exons[0][0], exons[-1][1]
+        seen_w = set()
+        for ws, we in ((lo + 1, hi), (lo + 4, None), (None, hi - 4), (cs + 1, ce), (cs + 2, None), (cs, ce - 1), (lo + 2, hi - 2)):
+            a, b = (lo if ws is None else ws), (hi if we is None else we)
+            if a >= b or (ws, we) in seen_w or a >= hi or b <= lo:
+                continue
+            seen_w.add((ws, we))
+            wantw = [c for c in want if all(a <= p < b for p in c)]
+            n += 1
+            k, v = run(it, q("scan_chunk_relative_codon_locations"), [ws, we], {}, mk_cds(it, exons, S[sn], frames, pk))
+            # the window may cut the 5' end where the chunk does not: same category as the chunk cutting it
+            wcut = (a > lo) if sn == "PLUS" else (b < hi)
+            single_known = len(exons) == 1 and start != 0 and (wcut or "5' end cut" in cat)
+            subj = "chunk codon window [single-exon, start frame nonzero, 5' end cut]" if single_known else "chunk codon window"
+            if k != "ok":
+                if wantw or v in ("AttributeError", "IndexError", "KeyError", "TypeError", "RecursionError"):
+                    out.append((subj + " raises", f"{desc}: scan_chunk_relative_codon_locations({ws},{we}) raises {v}; codons inside chunk and window: {wantw}",
+                                q("scan_chunk_relative_codon_locations").qual))
+                continue
+            got = [[to_chrom(p) for p in loc_positions(c)] for c in v]
+            if got != wantw:
+                out.append((subj, f"{desc}: scan_chunk_relative_codon_locations({ws},{we}) (in chromosome coordinates) = {got}; whole-chromosome "
+                            f"codons fully inside the chunk and the window: {wantw}", q("scan_chunk_relative_codon_locations").qual))
+    # the protein of the chunk view is the stretch of the whole-chromosome protein made by the codons inside the chunk: the
+    # start-codon rule of a table belongs to the first codon of the CDS, not to the first codon that happens to be visible
+    if want and codons:
+        whole_seq = "".join(bases(c, sn) for c in codons)
+        i0 = codons.index(want[0])
+        for table in ("DEFAULT", "STANDARD", "PROKARYOTE"):
+            n += 1
+            tt = it.enum("TranslationTable")[table]
+            k, v = run(it, q("translate"), [], {"translation_table": tt}, mk_cds(it, exons, S[sn], frames, pk))
+            wp = translate_ref(whole_seq, table)[i0:i0 + len(want)]
+            got = v.fields["sequence"] if k == "ok" and isinstance(v, Obj) else v
+            if k != "ok" or got != wp:
+                first = "first codon of the CDS visible" if i0 == 0 else "first codon of the CDS cut off"
+                subj = f"chunk protein {cat}" if cat.startswith("[single-exon, start frame nonzero, 5' end cut") else f"chunk protein [{first}]"
+                out.append((subj, f"{desc}: translate(table={table}) on the chunk -> {k}:{got}; the whole-chromosome protein "
+                            f"{translate_ref(whole_seq, table)!r} restricted to the codons inside the chunk is {wp!r}", q("translate").qual))
     # chunk-relative frames: every chunk-relative block is annotated with the frame the uninterrupted reading frame has at
     # its 5' end (5' by the direction of the CDS)
     if inside_any:
